@@ -19,6 +19,8 @@ xarray_utils time helpers, radiation orbital-time functions):
 
 Array routes are driven one real array call per case (a day of minutes, 1000 sparse stamps, 10000
 seconds; `validated` counts the elements); scalar routes one call per element.
+
+Extensions after the seeded-breakage rounds (DESIGN.md 8.5): The unit lattice includes dimensionless units that carry a factor (g/kg, percent, ppm, year/day).
 """
 import datetime
 import struct
